@@ -195,6 +195,9 @@ func genHandleProgram(r *rand.Rand, rs int) []Op {
 		case 1:
 			return int64(cur)
 		case 2:
+			if r.IntN(2) == 0 {
+				return int64(cur) + 1 // exactly one byte beyond the end
+			}
 			return int64(cur) + 1 + int64(r.IntN(20))
 		case 3:
 			return -1 - int64(r.IntN(5))
@@ -253,6 +256,14 @@ func genHandleProgram(r *rand.Rand, rs int) []Op {
 				ops = append(ops, Op{K: "h.truncate", H: 1, O: o})
 				if o >= 0 {
 					cur = int(o)
+					if r.IntN(3) == 0 {
+						// boundary pair: now that the size is known exactly, grow or shrink by one byte
+						o += int64(r.IntN(2)*2 - 1)
+						if o >= 0 {
+							ops = append(ops, Op{K: "h.truncate", H: 1, O: o})
+							cur = int(o)
+						}
+					}
 				}
 			} else {
 				ops = append(ops, Op{K: "h.stat", H: 1})
@@ -273,7 +284,7 @@ func init() {
 	Register(&Check{
 		ID: "C02", Level: "exploration", Tech: "deterministic simulation: lock-step refinement against an executable reference filesystem (RefFS), per call and whole tree",
 		Rule:      "seeded sequential histories over adversarial name universes (reused names, SQL wildcards, dots/suffixes, spaces, non-ASCII, >100-byte components), every OpenFile flag set, contents 0..several records, swarm over pipeline configs; each call's success/error class and the whole observed tree are compared with RefFS after every call; non-trivial = at least 2 successful mutating calls; distinct by (op-kind sequence, config, name style)",
-		QuickRuns: 3000, QuickSecs: 60, ThoroughRuns: 100000, ThoroughSecs: 1500,
+		QuickRuns: 6000, QuickSecs: 60, ThoroughRuns: 100000, ThoroughSecs: 1500,
 		Assumptions: []string{"RefFS semantics = POSIX/afero in-memory filesystem; fields the statement leaves open (implicit mtime bumps, directory sizes, cursor after ReadAt/WriteAt, size of a file with an unflushed handle) are masked, POSIX ENOTDIR is accepted as any failure", "symlinks are out of C02's scope", "O_RDONLY|O_TRUNC and removing/renaming an entry that has an open handle are not generated (reference behaviour not uniform)"},
 		Gen: func(r *rand.Rand, tier string, relax Relax) *Case {
 			c := &Case{Cfg: GenConfig(r, 0.6), P: map[string]int64{}, S: map[string]string{}}
@@ -294,7 +305,7 @@ func init() {
 	Register(&Check{
 		ID: "C12", Level: "exploration", Tech: "deterministic simulation: lock-step refinement against RefFS on generated adversarial trees, plus rebuild restart",
 		Rule:      "generated trees over adversarial alphabets ('_', '%', '.', ' ', multi-byte, quote characters, prefix-related siblings a/aa/a_/a%), then 1-3 RemoveAll/Rename calls on a chosen directory (destinations: inside itself, onto an existing directory, sibling name, formerly used name); whole tree compared with RefFS after every call and after a rebuild from the tape; non-trivial = at least 3 entries existed when the subtree call ran; distinct by (op sequence incl. paths)",
-		QuickRuns: 3000, QuickSecs: 50, ThoroughRuns: 80000, ThoroughSecs: 1200,
+		QuickRuns: 6000, QuickSecs: 50, ThoroughRuns: 80000, ThoroughSecs: 1200,
 		Assumptions: []string{"RefFS as in C02"},
 		Gen: func(r *rand.Rand, tier string, relax Relax) *Case {
 			c := &Case{Cfg: PlainConfig(recordSizes[r.IntN(len(recordSizes))]), P: map[string]int64{}, S: map[string]string{}}
@@ -326,7 +337,7 @@ func init() {
 	Register(&Check{
 		ID: "C14", Level: "exploration", Tech: "deterministic simulation: handle programs in lock step with a byte-array reference file (RefFS handle model); restore goroutine scheduled by the simulator",
 		Rule:      "generated handle programs (1-30 calls of Read/ReadAt/Seek(all whences, negative..beyond end)/Write/WriteAt/WriteString/Truncate/Sync/Stat) on files of 0..several records under every OpenFile flag set, both write caches, pipeline swarm; every returned count/offset/bytes/EOF compared with the model, then Stat + full read after Close; non-trivial = at least 3 handle calls succeeded; distinct by (flags, op-kind sequence, size class, config)",
-		QuickRuns: 4000, QuickSecs: 60, ThoroughRuns: 80000, ThoroughSecs: 1500,
+		QuickRuns: 12000, QuickSecs: 60, ThoroughRuns: 80000, ThoroughSecs: 1500,
 		Assumptions: []string{"cursor after ReadAt/WriteAt is unspecified (os.File keeps it, afero's in-memory file moves it): the model forgets it until the next absolute Seek", "WriteAt on an O_APPEND handle is unspecified", "(n>0, EOF) and (n, nil) followed by (0, EOF) are equivalent per io.Reader", "no other drive-using call is issued while a read stream is open (known finding D9)"},
 		Gen: func(r *rand.Rand, tier string, relax Relax) *Case {
 			c := &Case{Cfg: GenConfig(r, 0.5), P: map[string]int64{}, S: map[string]string{}}
